@@ -3,11 +3,13 @@
 package kubeeventsmanager
 
 import (
+	"context"
 	"sync"
 
 	"github.com/deckhouse/deckhouse/pkg/log"
 	"k8s.io/apimachinery/pkg/apis/meta/v1/unstructured"
 
+	klient "github.com/flant/kube-client/client"
 	kemtypes "github.com/flant/shell-operator/pkg/kube_events_manager/types"
 	"github.com/flant/shell-operator/pkg/metric"
 )
@@ -50,7 +52,9 @@ func (v *VerifC01Informer) Handle(eventType kemtypes.WatchEventType, obj *unstru
 }
 
 // Snapshot is the informer's part of Monitor.Snapshot().
-func (v *VerifC01Informer) Snapshot() []kemtypes.ObjectAndFilterResult { return v.ei.getCachedObjects() }
+func (v *VerifC01Informer) Snapshot() []kemtypes.ObjectAndFilterResult {
+	return v.ei.getCachedObjects()
+}
 
 // Enable is the informer's part of Monitor.EnableKubeEventCb().
 func (v *VerifC01Informer) Enable() { v.ei.enableKubeEventCb() }
@@ -67,4 +71,38 @@ func (v *VerifC01Informer) State() (bool, int) {
 	v.ei.eventBufLock.Lock()
 	defer v.ei.eventBufLock.Unlock()
 	return v.ei.eventCbEnabled, len(v.ei.eventBuf)
+}
+
+// VerifC01Monitor wraps a monitor built on a (fake) cluster so that the namespace callback
+// can be invoked by the harness instead of by the namespace informer.
+type VerifC01Monitor struct {
+	M      *monitor
+	mu     sync.Mutex
+	events []kemtypes.KubeEvent
+}
+
+func NewVerifC01Monitor(ctx context.Context, client *klient.Client, mstor metric.Storage, mc *MonitorConfig) (*VerifC01Monitor, error) {
+	v := &VerifC01Monitor{}
+	v.M = NewMonitor(ctx, client, mstor, mc, func(ev kemtypes.KubeEvent) {
+		v.mu.Lock()
+		v.events = append(v.events, ev)
+		v.mu.Unlock()
+	}, log.NewNop())
+	if err := v.M.CreateInformers(); err != nil {
+		return v, err
+	}
+	return v, nil
+}
+
+// NamespaceAdded runs the callback the namespace informer calls for a namespace that starts matching.
+func (v *VerifC01Monitor) NamespaceAdded(ns string) {
+	if v.M.NamespaceInformer != nil && v.M.NamespaceInformer.addFn != nil {
+		v.M.NamespaceInformer.addFn(ns)
+	}
+}
+
+func (v *VerifC01Monitor) Events() []kemtypes.KubeEvent {
+	v.mu.Lock()
+	defer v.mu.Unlock()
+	return append([]kemtypes.KubeEvent{}, v.events...)
 }
